@@ -52,7 +52,9 @@ public:
   bool tryPush(const T& item) noexcept(std::is_nothrow_copy_assignable_v<T>)
   {
     auto head = _head.load(std::memory_order_relaxed);
-    auto tail = _tail.load(std::memory_order_relaxed);
+    // acquire: pairs with the consumer's release store of _tail, so the consumer's read of
+    // the slot about to be reused happens-before the write below
+    auto tail = _tail.load(std::memory_order_acquire);
     if (head - tail >= Capacity)
     {
       return false;
@@ -66,7 +68,9 @@ public:
   bool tryPush(T&& item) noexcept(std::is_nothrow_move_assignable_v<T>)
   {
     auto head = _head.load(std::memory_order_relaxed);
-    auto tail = _tail.load(std::memory_order_relaxed);
+    // acquire: pairs with the consumer's release store of _tail, so the consumer's read of
+    // the slot about to be reused happens-before the write below
+    auto tail = _tail.load(std::memory_order_acquire);
     if (head - tail >= Capacity)
     {
       return false;
@@ -109,7 +113,7 @@ public:
     noexcept(std::is_nothrow_copy_assignable_v<T>)
   {
     auto head = _head.load(std::memory_order_relaxed);
-    auto tail = _tail.load(std::memory_order_relaxed);
+    auto tail = _tail.load(std::memory_order_acquire); // pairs with the consumer's release store
     auto available = Capacity - (head - tail);
     auto toPush = count < available ? count : available;
 
@@ -193,7 +197,9 @@ public:
   bool tryPush(const T& item) noexcept(std::is_nothrow_copy_assignable_v<T>)
   {
     auto head = _head.load(std::memory_order_relaxed);
-    auto tail = _tail.load(std::memory_order_relaxed);
+    // acquire: pairs with the consumer's release store of _tail, so the consumer's read of
+    // the slot about to be reused happens-before the write below
+    auto tail = _tail.load(std::memory_order_acquire);
     if (head - tail >= _capacity)
     {
       return false;
@@ -206,7 +212,9 @@ public:
   bool tryPush(T&& item) noexcept(std::is_nothrow_move_assignable_v<T>)
   {
     auto head = _head.load(std::memory_order_relaxed);
-    auto tail = _tail.load(std::memory_order_relaxed);
+    // acquire: pairs with the consumer's release store of _tail, so the consumer's read of
+    // the slot about to be reused happens-before the write below
+    auto tail = _tail.load(std::memory_order_acquire);
     if (head - tail >= _capacity)
     {
       return false;
@@ -245,7 +253,7 @@ public:
     noexcept(std::is_nothrow_copy_assignable_v<T>)
   {
     auto head = _head.load(std::memory_order_relaxed);
-    auto tail = _tail.load(std::memory_order_relaxed);
+    auto tail = _tail.load(std::memory_order_acquire); // pairs with the consumer's release store
     auto available = _capacity - (head - tail);
     auto toPush = count < available ? count : available;
     for (std::size_t i = 0; i < toPush; ++i)
